@@ -294,6 +294,14 @@ class Gen:
         pts = self.w.model.points
         tp = self.time_profile
         us = _dt.timedelta(microseconds=1)
+        if self.prof["time"] == "rich" and tp != "inorder":
+            # the instant whose timestamp is 0.0 (falsy in Python), first in
+            # storage or directly followed by an older one
+            epoch = _dt.datetime(1970, 1, 1, tzinfo=UTC)
+            if not pts and r.random() < 0.03:
+                return epoch
+            if pts and pts[-1].t == epoch and r.random() < 0.5:
+                return epoch - r.choice([1, 10 ** 6, 43200 * 10 ** 6]) * us
         if pts and r.random() < 0.55:
             base = r.choice(pts).t
             latest = max(p.t for p in pts)
@@ -310,6 +318,14 @@ class Gen:
             if c < 0.75:
                 return min(p.t for p in pts) - r.choice([1, 10 ** 6]) * us
             return base + r.randint(-10 ** 9, 10 ** 9) * us
+        if self.prof["time"] == "rich" and r.random() < 0.08:
+            # instants at which second counters are special (epoch zero and
+            # its neighbours, 32-bit limits)
+            base = r.choice([0, 0, -1, 1, 2 ** 31 - 1, 2 ** 31, -2 ** 31,
+                             2 ** 32, 10 ** 9, -10 ** 9])
+            us_off = r.choice([0, 0, 1, -1, 999999, -999999, 500000])
+            return _dt.datetime(1970, 1, 1, tzinfo=UTC) + _dt.timedelta(
+                seconds=base, microseconds=us_off)
         if self.prof["time"] == "rich" and r.random() < 0.12:
             year = r.choice([1700, 1701, 1883, 1969, 1970, 2038, 2239, 2240])
             return _dt.datetime(year, r.randint(1, 12), r.randint(1, 28),
